@@ -5,6 +5,7 @@ pub mod p04;
 pub mod p05;
 pub mod p19;
 pub mod p20;
+pub mod pcli;
 pub mod pexpr;
 pub mod pwalk;
 
@@ -30,6 +31,8 @@ pub fn get(name: &str) -> Option<Box<dyn Prop>> {
         "C03" => Some(Box::new(pwalk::PWalk::new("C03"))),
         "C18" => Some(Box::new(pwalk::PWalk::new("C18"))),
         "C01" => Some(Box::new(pexpr::PExpr::new("C01"))),
+        "C11" => Some(Box::new(pexpr::PExpr::new("C11"))),
+        "C11o" => Some(Box::new(pcli::PCli::default())),
         "C04" => Some(Box::new(p04::P04::default())),
         "C05" => Some(Box::new(p05::P05::default())),
         "C19" => Some(Box::new(p19::P19::default())),
